@@ -6,7 +6,7 @@ EXPLANATION = (
     "CMP-1 `op` is used only as the operator argument of dewey_test (no branch, no other argument depends on it); CMP-2 operator table GE/GT/LE/LT -> >=,>,<=,< on (lhs, rhs) in that order; "
     "CMP-3 provenance: left operand from lhs or 0, right operand from rhs or 0, never both constants; CMP-4 every component comparison is guarded by inequality of the same two terms and indexed by a range 0..min(len l,len r), len l..len r (left = 0) or len r..len l (right = 0) on the matching length branch; "
     "CMP-5 the revision comparison is outside every loop and reached only after every loop on the path was exhausted; every return of dewey_cmp is a dewey_test result; "
-    "D conjunction: Dewey::matches returns true only after all bounds passed, false as soon as one fails")
+    "D conjunction: Dewey::matches returns true only after all bounds passed, false as soon as one fails; recognised spellings of the same discipline: three index loops on the length branch, one lock-step loop over 0..max(len) reading absent positions as 0 (get(i).unwrap_or(0)), or zip for the common prefix plus the first non-zero of each tail version[min(len)..] (searched only after the prefix is exhausted)")
 NOT_DECIDED = [
     "that Range iteration visits every position (std) and that tokenising is total (C17)",
     "a rewrite that branches on `op` while preserving behaviour would violate CMP-1 (documented false-alarm source)",
